@@ -5,9 +5,11 @@ SPEC = {
     'claimed': True,
     'theorems': ['C10_table_refines_map_refuted', 'C10_refuted_del_add', 'C10_refuted_del_replace',
                  'C10_update_del_fixed', 'C10_refuted_sep_collision',
-                 'C10_table_refines_map_partial', 'C10_every_save_partial', 'C10_queries_partial'],
+                 'C10_table_refines_map_partial', 'C10_every_save_partial', 'C10_queries_partial',
+                 'C10_join_refuted_prefix_scan', 'C10_join_refuted_del_right_change', 'C10_join_refuted_fk_change',
+                 'C10_join_refuted_dangling'],
     'allowed_axioms': [],
-    'shard': 30,
+    'shard': 40,
     'rule': 'operation histories (Add/Replace/Update/Del/DelRow/Save) on a real table.Table '
             '(Prefix p, Name t, Primary Cointoken, Index [To, Note] over types.AssetsTransfer) on goleveldb (2/3) and memdb (1/3): '
             '4-6 primary keys, 1-4 saves, per window 1-6 operations on 3/4 of the keys, interleaved; new rows draw To from '
@@ -20,7 +22,22 @@ SPEC = {
             'table.DecodeRow + types.Decode) and 9 ListIndex queries (primary, To, Note; full listings with and without prefix in both '
             'directions, pages with count 1-3 and/or a start key). check_case recomputes safe_words in Coq: inside the guard every '
             'divergence is a violation; outside only the first divergence is classified against known_findings/C10.json. '
-            'non-trivial = some save left a non-empty store and some query returned rows; distinct = distinct Gallina case terms',
+            'non-trivial = some save left a non-empty store and some query returned rows; distinct = distinct Gallina case terms. '
+            'JoinTable streams (case constructor CJoin): histories on a real table.JoinTable (left = Option{p, a, Primary txhash, Index [gameID, addr]}, '
+            'right = Option{p, g, Primary gameID, Index [status, tag]}, NewJoinTable(left, right, [addr#status, #status]); both tables hold '
+            'types.AssetsTransfer rows through their own RowMeta) on goleveldb (2/3) and memdb (1/3): 3-6 left keys, 2-4 right keys, 1-4 join.Save, '
+            'per window 1-8 Add/Replace/Update/Del/DelRow calls on the left or right table (several per key; right updates change only the payload, the '
+            'tag, the status, or nothing; left updates keep or change addr), right changes mixed with pending left adds/updates/dels of the same and of '
+            'other right keys. Streams: 5 deterministic witnesses x 2 backends (findings 5-8 and one history inside the guard); join-guarded (right keys '
+            'g1 g2 k g3, the generator retries a window until JoinSpec.save_safe holds: foreign key of a stored row unchanged, looked-up right row '
+            'exists, no left Del together with an Add/status change of its right row, no effective right key a proper prefix of a stored foreign key); '
+            'join-unrestricted (prefix-related right keys g1 g10 g2 g, foreign-key changes, dangling foreign keys; mostly avoids the failing Save, which '
+            'ends a history). Both stay inside the plain-table guard for the left and the right table. Observables: error class of every call; after '
+            'every join.Save the dump of the whole database under prefix p (left, right and join records; written as the difference to the previous '
+            'dump, keys as interned pieces that Coq concatenates) and 5 join queries (JoinTable.ListIndex full listings with an exact / cut / empty '
+            'JoinKey prefix, pages with count or start key, JoinTable.GetData). check_case recomputes the guard jsafe in Coq: inside it every '
+            'divergence is a violation; outside only the first divergence is classified against findings 5-8. '
+            'non-trivial (join) = some join.Save left join index records and some join query returned rows',
     'trusted_base': ['Row.Encode/DecodeRow and the protobuf encoding of the row are not modelled: a stored value is the abstract term '
                      'VRow primary data / VPrim primary; the harness decodes the stored bytes with the real DecodeRow + types.Decode',
                      'the KV backend is modelled as an ordered map (Lib.OMap): Get, batch Set/Delete in order (util.SaveKVList; DelDupKey = last '
